@@ -57,7 +57,7 @@ type Case struct {
 	KwN  []string `json:"kwn,omitempty"`
 	KwV  []string `json:"kwv,omitempty"`
 
-	Src    []byte `json:"src,omitempty"`  // base64 in JSON: texts contain NUL and non-UTF-8 bytes
+	Src    []byte `json:"src,omitempty"`        // base64 in JSON: texts contain NUL and non-UTF-8 bytes
 	SrcQ   string `json:"src_quoted,omitempty"` // the same text, Go-quoted, for the reader
 	Opt    int    `json:"opt,omitempty"`
 	Entry  string `json:"entry,omitempty"` // text: "" ExecFileOptions | eval EvalOptions | exprfunc ExprFuncOptions + Call | repl Parse + ExecREPLChunk
